@@ -1,0 +1,16 @@
+//go:build verif
+
+package s3db
+
+import "github.com/jrhy/s3db/kv"
+
+// VerifS3Hook, when set by a verification harness, may substitute the
+// object-store client that OpenKV is about to hand to kv.Open.
+var VerifS3Hook func(opts S3Options, c kv.S3Interface) kv.S3Interface
+
+func verifS3Client(opts S3Options, c kv.S3Interface) kv.S3Interface {
+	if VerifS3Hook != nil {
+		return VerifS3Hook(opts, c)
+	}
+	return c
+}
